@@ -47,6 +47,10 @@ def check(ck):
             raise AnalysisError("anchor vanished: body write / Content-Length emission in %s (%d/%d)" % (q.fn(fi), len(writes), len(lens)))
         wn, wc = writes[0]
         ln, lc = lens[0]
+        if len(lc.args) < 2:
+            ck.bad("C17.1", "%s: Content-Length vs the bytes written" % q.fn(fi), "the Content-Length header is emitted without a value (`%s`)" % dump(lc),
+                   q.loc(fi, ln))
+            continue
         val = lc.args[1]
         if not isinstance(wc.args[0], ast.Name):
             ck.bad("C17.1", "%s: Content-Length vs the bytes written" % q.fn(fi),
@@ -71,8 +75,18 @@ def check(ck):
             for c in node_calls(n):
                 if call_name(c) == hdr and c.args and isinstance(c.args[0], ast.Constant) and "content-type" in str(c.args[0].value).lower():
                     cts.append((n, c))
-        ck.require(len(cts) == 1 and dump(cts[0][1].args[1]) == ctype, "C17.2", "%s: Content-Type from the configuration" % q.fn(fi), ctype,
-                   "the emitted content type is `%s`, not the configured %s" % (dump(cts[0][1].args[1]) if cts else None, ctype), q.loc(fi, ln))
+        ctv = dump(cts[0][1].args[1]) if cts and len(cts[0][1].args) > 1 else None
+        ck.require(len(cts) == 1 and ctv == ctype, "C17.2", "%s: Content-Type from the configuration" % q.fn(fi), ctype,
+                   "the emitted content type is `%s`, not the configured %s" % (ctv, ctype), q.loc(fi, ln))
+        # the two headers belong to the header block: they precede the call that closes it (end_headers / endheaders / the empty line)
+        from vlib.flow import reachable_avoiding as _ra2
+        enders = [n for n in g.live_nodes() for c in node_calls(n) if call_name(c) in ("end_headers", "endheaders") or
+                  (isinstance(c.func, ast.Name) and c.func.id == "print" and not c.args and not c.keywords)]
+        for (hn, _hc) in [lens[0]] + cts[:1]:
+            late = [e_ for e_ in enders if hn.id in _ra2(g, e_.id, set(), lambda l: l != "exc") and e_.id not in _ra2(g, hn.id, set(), lambda l: l != "exc")]
+            ck.require(bool(enders) and not late, "C17.1", "%s: `%s` inside the header block" % (q.fn(fi), q.stmt_text(hn)[:40]), "before the block is closed",
+                       "the header is emitted after the header block has been closed (`%s`): it is not part of the message's headers"
+                       % (q.stmt_text(late[0])[:40] if late else "no closing call found"), q.loc(fi, hn))
     ck.floor("C17.1", 6)
 
     # ---- C17.3 decode after join ----------------------------------------------------------------------
